@@ -402,6 +402,7 @@ def c10(ctx):
     acc = Acc()
     gt_sem(ctx, acc, 'c10acts', 'acts', pick(ctx, 2, 3), ROUTE_KINDS)
     t_sem(ctx, acc, 'c10rand', ['--count', str(pick(ctx, 200, 3000)), '--seed', str(ctx.seed), '--size', '9', '--profile', 'actions'], ROUTE_KINDS)
+    t_sem(ctx, acc, 'c10affix', ['--profile', 'affix', '--no-warmup'], ROUTE_KINDS, consts='CONSTANT MaxFiles = 4\nCONSTANT Static = FALSE\n')
     t_sem(ctx, acc, 'c10chain', ['--count', str(pick(ctx, 4, 40)), '--seed', str(ctx.seed), '--profile', 'chain', '--size', '300'], ROUTE_KINDS, consts='CONSTANT MaxFiles = %d\nCONSTANT Static = FALSE\n' % pick(ctx, 3, 8))
     return tv_result(acc, 'all multisets of up to %d actions from 12 action kinds (stdout/file x newline/NUL/format, file names from a pool of 3, print-file-fid, quit) as AND chain, OR chain and mixed; seeded random operator trees rich in actions; chains with up to 300 resources (destinations and matchers); checked: framed iff NeedsFramed, plain => no table, injective table equal to the required targets, stream decodes into frames whose routed records equal FindSem outputs' % pick(ctx, 2, 3), [])
 
@@ -486,7 +487,7 @@ def c13(ctx):
     return r
 
 
-LEX_KINDS = {'malformed-program', 'skeleton-differs', 'string-count-differs', 'string-not-verbatim', 'marker-not-in-a-string',
+LEX_KINDS = {'user-string-missing', 'malformed-program', 'skeleton-differs', 'string-count-differs', 'string-not-verbatim', 'marker-not-in-a-string',
              'hostile-string-changes-outcome', 'runtime-error', 'no-scan-call', 'mdt-mismatch', 'compile-panic', 'render-panic',
              'iomap-targets-wrong', 'timeout'}
 
@@ -511,9 +512,11 @@ def c04(ctx):
         r = recs[v['idx'] - 1]
         if r.get('slot', '').startswith('fmt-') and 'outs-mismatch' in v['kinds']:
             acc.failures.append({'kinds': ['outs-mismatch'], 'tree': r['t'], 'o': r['o'], 'stage': 'c04lex', 'slot': r['slot']})
+    # pairs of related user strings (one the other plus an affix): each must still appear as its own literal
+    t_sem(ctx, acc, 'c04affix', ['--profile', 'affix', '--no-warmup'], {'user-string-missing', 'malformed-program', 'compile-panic'}, consts='CONSTANT MaxFiles = 1\nCONSTANT Static = FALSE\n')
     # random longer strings
     t_sem(ctx, acc, 'c04rand', ['--count', str(pick(ctx, 300, 5000)), '--seed', str(ctx.seed), '--size', '4', '--hostile', '--no-direct', '--paths', 'hostile'],
-          {'malformed-program', 'runtime-error', 'no-scan-call', 'mdt-mismatch', 'compile-panic', 'render-panic', 'iomap-targets-wrong'},
+          {'user-string-missing', 'malformed-program', 'runtime-error', 'no-scan-call', 'mdt-mismatch', 'compile-panic', 'render-panic', 'iomap-targets-wrong'},
           consts='CONSTANT MaxFiles = 3\nCONSTANT Static = FALSE\n')
     r = tv_result(acc, 'all strings up to length %d over the 18-symbol alphabet {" \\ ~ %% ( ) ; # LF U+0001 e-acute a SP * [ \' | TAB} in 15 string-carrying slots (name/iname/path/ipath patterns, pool, xattr name, both -xattr-match arguments, output file names, literal format text at the end / in the middle / without newline, %%{xattr:NAME}, device path), injected through the public constructors; each compared with the same construct carrying a benign marker of the same wildcard class; plus seeded random hostile strings up to length 5 in random trees rendered for hostile device paths' % mlen,
                   ["oracle: SchemeRead.tla (Guile's lexical syntax incl. its string escape set): exactly two top-level forms, equal skeletons, string literals equal except where the marker stood and decoding to the user string ('~' doubled in format templates), executed outputs equal find's for the format slots"],
@@ -546,6 +549,7 @@ def c11(ctx):
     sem_validate(ctx, acc, 'c11chains', trace, SCOPE_KINDS, consts='CONSTANT MaxFiles = 14\nCONSTANT Static = FALSE\n', timeout=6000)
     t_sem(ctx, acc, 'c11long', ['--count', str(pick(ctx, 4, 60)), '--seed', str(ctx.seed), '--profile', 'chain', '--size', '300'], SCOPE_KINDS,
           consts='CONSTANT MaxFiles = %d\nCONSTANT Static = FALSE\n' % pick(ctx, 3, 6))
+    t_sem(ctx, acc, 'c11affix', ['--profile', 'affix', '--no-warmup'], SCOPE_KINDS, consts='CONSTANT MaxFiles = 4\nCONSTANT Static = FALSE\n')
     t_sem(ctx, acc, 'c11short', ['--count', str(pick(ctx, 150, 2000)), '--seed', str(ctx.seed + 1), '--profile', 'chain', '--size', '10'], SCOPE_KINDS,
           consts='CONSTANT MaxFiles = 40\nCONSTANT Static = FALSE\n')
     r = tv_result(acc, 'design: all request sequences up to %d over 15 requests (3 patterns equal up to case/wildcard x {cs, ci}, 2 files x 3 terminators, 3 stdout terminators) for both manager kinds with the invariants of Manager.tla; code: every request sequence up to 3 as an AND chain plus seeded chains with up to %d resources in random first-occurrence order with repeats, compiled by the real code; Scope.tla on the real let* (bound once, earlier binding, no capture), number of matcher-like and printer-like bindings (classified by behaviour) equal to Manager.tla for that tree, and execution on distinguishing files' % (mlen, 300), [], level='model_checking')
